@@ -24,6 +24,15 @@
 #include <cstdlib>
 #include <cstring>
 
+// hex rendering for reports; long byte strings (large-buffer checks) are abbreviated
+inline std::string shx(const gsref::Bytes &b)
+{
+    if (b.size() <= 64)
+        return gsref::hex(b);
+    gsref::Bytes h(b.begin(), b.begin() + 20), t(b.end() - 12, b.end());
+    return gsref::hex(h) + mc::fmt("..(%zu bytes)..", b.size()) + gsref::hex(t);
+}
+
 struct Monitor
 {
     gs::Markers M;
@@ -54,7 +63,7 @@ struct Monitor
     }
     std::string key() const
     {
-        return mc::fmt("|m%d%d%d%d%d:", started, invalid, toolong, esc, ovf) + (d.empty() ? std::string() : gsref::hex(d));
+        return mc::fmt("|m%d%d%d%d%d:", started, invalid, toolong, esc, ovf) + (d.empty() ? std::string() : shx(d));
     }
     const char *phase() const
     {
@@ -104,13 +113,13 @@ struct Monitor
         size_t at = stream.size() - 1;
         if ((int)r.stored() > cap - 1)
             viol(sig("memory.stored_more_than_cap-1"), "cap=%d stream=%s: %zu bytes stored after byte %zu", cap,
-                          gsref::hex(stream).c_str(), r.stored(), at);
+                          shx(stream).c_str(), r.stored(), at);
         bool is_start = b == M.start, is_stop = b == M.stop;
         if (st == gs::OVERFLOW_ && started)
             ovf = true;
         if (st == gs::NEWPACKAGE && !is_stop)
             viol(sig("newchar.newpackage_on_a_byte_that_is_not_the_stop_marker"), "cap=%d stream=%s byte %zu (%02x)", cap,
-                          gsref::hex(stream).c_str(), at, b);
+                          shx(stream).c_str(), at, b);
         if (is_stop)
         {
             bool valid = started && !invalid && !toolong && !esc && d.size() >= 1 && gsref::crc8(d) == 0;
@@ -129,8 +138,8 @@ struct Monitor
                     viol(sig((std::string("newchar.unsound_delivery.") + kind).c_str()),
                                   "cap=%d stream=%s: NEWPACKAGE at byte %zu delivering %s, but the bytes since the last start "
                                   "marker are: %s%s",
-                                  cap, gsref::hex(stream).c_str(), at, gsref::hex(packet).c_str(), phase(),
-                                  (started && !invalid && !toolong) ? (" " + gsref::hex(d)).c_str() : "");
+                                  cap, shx(stream).c_str(), at, shx(packet).c_str(), phase(),
+                                  (started && !invalid && !toolong) ? (" " + shx(d)).c_str() : "");
                 }
                 else
                 {
@@ -139,19 +148,19 @@ struct Monitor
                         viol(sig("newchar.delivered_bytes_differ"),
                                       "cap=%d stream=%s: NEWPACKAGE at byte %zu delivered %s, unescaped bytes since the last start "
                                       "marker minus CRC are %s",
-                                      cap, gsref::hex(stream).c_str(), at, gsref::hex(packet).c_str(), gsref::hex(want).c_str());
+                                      cap, shx(stream).c_str(), at, shx(packet).c_str(), shx(want).c_str());
                 }
             }
             else if (valid && strict)
                 viol(sig("newchar.wellformed_frame_not_delivered"),
                               "cap=%d stream=%s: stop marker at byte %zu closes a well-formed frame with payload||crc %s that fits, "
                               "answer was %s",
-                              cap, gsref::hex(stream).c_str(), at, gsref::hex(d).c_str(), gs::status_name(st));
+                              cap, shx(stream).c_str(), at, shx(d).c_str(), gs::status_name(st));
             if (strict && started && !invalid && toolong && !esc && !ovf)
                 viol(sig("newchar.overlong_frame_not_reported_as_overflow"),
                               "cap=%d stream=%s: the frame closed at byte %zu has more than cap-1 unescaped bytes and no OVERFLOW "
                               "was answered since its start marker",
-                              cap, gsref::hex(stream).c_str(), at);
+                              cap, shx(stream).c_str(), at);
         }
         if (is_start)
         {
